@@ -392,6 +392,11 @@ where
     let mut d = c;
 
     while !(f_right.abs() < tol || f_s.abs() < tol || (left - right).abs() < tol) {
+        // The bracket is down to two neighbouring numbers: a tolerance below their spacing can not be met
+        let middle = (left + right) / two;
+        if middle == left || middle == right {
+            break;
+        }
         if (f_left - f_c).abs() < tol && (f_right - f_c).abs() < tol {
             s = (left * f_right * f_c) / ((f_left - f_right) * (f_left - f_c))
                 + (right * f_left * f_c) / ((f_right - f_left) * (f_right - f_c))
@@ -501,6 +506,10 @@ where
 
     while (right - left).abs() > two * tol {
         let x_half = (left + right) / two;
+        // The bracket is down to two neighbouring numbers: a tolerance below their spacing can not be met
+        if x_half == left || x_half == right {
+            break;
+        }
         let r = tol * two.powf(n_max + n_0 - N::from_i32(j).unwrap()) - (right - left).abs() / two;
         let x_f = (f_right * left - f_left * right) / (f_right - f_left);
         // The products overflow for huge function values: interpolate only inside the bracket
